@@ -703,7 +703,11 @@ class ActivityAnalyzer(transformer.Base):
     # try/except oddity: as expected, it leaks any names you defined inside the
     # except block, but not the name of the exception variable.
     if node.name is not None:
-      self.scope.isolated_names.add(anno.getanno(node.name, anno.Basic.QN))
+      if isinstance(node.name, str):
+        # In the stdlib ast the handler name is a plain string, not a Name node.
+        self.scope.isolated_names.add(qual_names.QN(node.name))
+      else:
+        self.scope.isolated_names.add(anno.getanno(node.name, anno.Basic.QN))
     node = self.generic_visit(node)
     self._exit_scope()
     return node
